@@ -92,12 +92,28 @@ def tester_matrices(g, sysname, rotate=True):
     return bases, rhos
 
 
-def make_qt(g, kind, sysname, para, m=None, rotate=True, eps_proj_physical=None):
-    """(qt, c_sys, m).  m = outcome count of the estimated POVM / measurement process"""
+def make_qt(g, kind, sysname, para, m=None, rotate=True, eps_proj_physical=None, testers="mub"):
+    """(qt, c_sys, m).  m = outcome count of the estimated POVM / measurement process.
+    testers="ineff": over-complete, imperfect testers -- one extra random basis, detection efficiency 60-90 % on all but the
+    last element of every tester POVM (elements of unequal trace), partly depolarised tester states: the linear estimate of
+    normalised data is then NOT automatically on the equality constraint when on_para_eq_constraint=False."""
     k, names = SYSTEMS[sysname]
     c = qobj.csys(k, names)
+    d = c.dim
     bases, rhos = tester_matrices(g, sysname, rotate)
-    povms = [Povm(c, [qobj.vec_of(c, np.outer(b[:, i], b[:, i].conj())) for i in range(b.shape[1])]) for b in bases]
+    if testers == "ineff":
+        bases = bases + [qobj.rand_unitary(g, d)]
+        mats = []
+        for b in bases:
+            eta = float(g.uniform(0.6, 0.9))
+            els = [eta * np.outer(b[:, i], b[:, i].conj()) for i in range(d - 1)]
+            els.append(np.eye(d) - sum(els))
+            mats.append(els)
+        povms = [Povm(c, [qobj.vec_of(c, e) for e in els]) for els in mats]
+        extra = qobj.rand_density(g, d)
+        rhos = [(1 - lam) * r + lam * np.eye(d) / d for r, lam in zip(rhos, g.uniform(0.0, 0.4, size=len(rhos)))] + [extra]
+    else:
+        povms = [Povm(c, [qobj.vec_of(c, np.outer(b[:, i], b[:, i].conj())) for i in range(b.shape[1])]) for b in bases]
     states = [State(c, qobj.vec_of(c, r)) for r in rhos]
     kw = dict(on_para_eq_constraint=para, schedules="all", eps_proj_physical=eps_proj_physical)
     if kind == "qst":
